@@ -172,7 +172,7 @@ type history struct {
 }
 
 // genBatch draws one batch of operations on distinct pool keys.
-func genBatch(o *drv.Out, u *Universe, present []int, size int, parallel bool, hot []int) []op {
+func genBatch(o *emitter, u *Universe, present []int, size int, parallel bool, hot []int) []op {
 	r := o.Rng
 	seen := map[int]bool{}
 	var ops []op
@@ -235,14 +235,13 @@ func presentIdx(u *Universe, m map[string][]byte) []int {
 	return out
 }
 
-// RunSMT drives random histories of set/delete/commit through the real SMT at several key lengths.
-func RunSMT(o *drv.Out) {
-	r := o.Rng
-	thorough := o.Tier == "thorough"
-	type cfg struct {
-		n, cases, commits, maxBig int
-	}
-	cfgs := []cfg{{3, 30, 8, 0}, {4, 30, 10, 0}, {5, 30, 10, 0}, {6, 30, 10, 0}, {8, 40, 10, 120}, {9, 40, 10, 200}, {12, 30, 8, 400}, {16, 20, 8, 600}, {160, 24, 6, 500}}
+type smtCfg struct {
+	n, cases, commits, maxBig int
+}
+
+// smtConfigs lists the key lengths of grain (a) with their case counts.
+func smtConfigs(thorough bool) []smtCfg {
+	cfgs := []smtCfg{{3, 30, 8, 0}, {4, 30, 10, 0}, {5, 30, 10, 0}, {6, 30, 10, 0}, {8, 40, 10, 120}, {9, 40, 10, 200}, {12, 30, 8, 400}, {16, 20, 8, 600}, {160, 24, 6, 500}}
 	if thorough {
 		for i := range cfgs {
 			cfgs[i].cases *= 4
@@ -252,16 +251,28 @@ func RunSMT(o *drv.Out) {
 			}
 		}
 	}
-	for _, c := range cfgs {
-		u := NewUniverse(c.n, thorough)
-		for ci := 0; ci < c.cases; ci++ {
+	return cfgs
+}
+
+// runSMTCase drives one random history of set/delete/commit through the real SMT at key length c.n.
+// Every call into the real code of this case is under the recover below: a panic (or an error where none may
+// occur) becomes an oracle failure with the history as replay, and the run goes on with the next case.
+func runSMTCase(o *emitter, u *Universe, c smtCfg, ci int) {
+	r := o.Rng
+	h := history{N: c.n}
+	defer func() {
+		if p := recover(); p != nil {
+			o.Fail("C08:panic-in-real-code", fmt.Sprintf("n=%d: %v | %s", c.n, p, shortStack()), h)
+		}
+	}()
+	{
+		{
 			reuse := c.maxBig == 0 && r.Intn(3) == 0 // one SMT object across sequential commits, as smt_test.go does
 			t, err := newTree(c.n, reuse)
 			if err != nil {
 				panic(err)
 			}
 			o.Case(fmt.Sprintf("smt n=%d #%d reuse=%v", c.n, ci, reuse))
-			h := history{N: c.n}
 			// initial root
 			root0 := t.smt.Root()
 			ref0, _ := RefRoot(t.m)
@@ -321,6 +332,7 @@ func RunSMT(o *drv.Out) {
 					}
 					fmt.Fprintf(os.Stderr, "TRACEBITS present=%v ops=%v\n", pb, ob)
 				}
+				o.Try(line)
 				res := t.commit(parallel, ops)
 				o.Count("smt:" + mode + ":" + res)
 				if wentParallel {
@@ -407,7 +419,7 @@ func refVal(t *RefNode) []byte {
 // metamorphic rebuilds the final key/value set of t in a fresh tree by a different history: random order,
 // random batch boundaries, decoy keys that are inserted and deleted again, sequential and parallel commits.
 // This oracle does not use the reference at all: it compares two runs of the real code.
-func metamorphic(o *drv.Out, u *Universe, t *tree, h history) {
+func metamorphic(o *emitter, u *Universe, t *tree, h history) {
 	r := o.Rng
 	// the final values are hashes already; to reproduce them we need preimages, so re-derive from history:
 	// collect the last written user value per key from the op lines
